@@ -112,8 +112,11 @@ def gen_v2_config(rng: random.Random, states: list, n: int, T: int, profile: dic
     elif r < 0.95:
         # stochastic + dissipative: averaged density matrices from mesolve
         spec["noise"] = {"state_prep_error": 0.5, "runs": 8, "samples_per_run": 1, "dephasing_rate": 0.2}
-    else:
+    elif r < 0.975:
         spec["noise"] = {"amp_sigma": 0.1, "laser_waist": 150.0, "runs": 2, "samples_per_run": 1}
+    else:
+        # Doppler shifts only: one random detuning per atom and run
+        spec["noise"] = {"temperature": G.pick(rng, [1000.0, 5000.0]), "runs": G.pick(rng, [4, 8]), "samples_per_run": 1}
     if rng.random() < 0.25:
         spec["initial_amplitudes"] = gen_amplitudes(rng, states, n)
     return spec
@@ -550,6 +553,22 @@ def _one(ctx, spec, states, n, T, seed, run, profile) -> bool:
                             return False
                     if fp or fn:
                         stats["probe/joint_distribution_under_detection_errors"] += 1
+    # --------------------------- C11: stochastic noise means several trajectories
+    if stochastic and legacy is not None and spec["noise"].get("runs", 1) >= 2 and "initial_amplitudes" not in spec:
+        # With per-run random noise both emulators must average over the requested
+        # runs: the legacy one then returns sampled (Noisy) results, never the
+        # pure state of a single random trajectory.
+        try:
+            np.random.seed(seed * 7919 + run)
+            lres = legacy.run()
+            single = type(lres).__name__ == "CoherentResults"
+        except Exception as e:  # noqa: BLE001
+            stats[f"legacy_stochastic_raised/{type(e).__name__}"] += 1
+            single = False
+        stats["probe/legacy_stochastic_run"] += 1
+        if single:
+            ctx.viol("C11/legacy-single-trajectory", 0, f"with stochastic noise {spec['noise']} the legacy emulator returned the coherent result of ONE random trajectory although {spec['noise']['runs']} runs were requested (the V2 backend averages them)")
+            return False
     # ------------------------------------------------- C11: legacy == V2 states
     if not stochastic and legacy is not None:
         try:
